@@ -739,7 +739,7 @@ pub fn main() {
     ck.assume("in a shallow client repository (or with --depth/--deepen) and a non-forced refspec git rejects genuine fast-forwards because it judges them on the just-truncated (grafted) history; there gitoxide's value (the server's) is accepted when the generated history says it is a fast-forward");
     ck.assume("refs are compared by name and resolved object id (gitoxide may store a symbolic ref where git stores the value)");
 
-    ck.sub("fetch", SubCfg::new(200, 6_000).max_len(1400).max_shrink(40), |t, c| {
+    ck.sub("fetch", SubCfg::new(100, 6_000).max_len(1400).max_shrink(40), |t, c| {
         let s = gen_scenario(t, c);
         c.key(&s);
         update_labels(&s, c);
@@ -1073,7 +1073,7 @@ pub fn main() {
         );
     });
 
-    ck.sub("clone", SubCfg::new(80, 2_400).max_len(1400).max_shrink(40), |t, c| {
+    ck.sub("clone", SubCfg::new(60, 2_400).max_len(1400).max_shrink(40), |t, c| {
         let large = t.chance(20);
         let mut h = gen_history(t, large);
         let bare = t.bool();
